@@ -38,6 +38,8 @@ def check(prog, run):
     run.rule("R6", "AV1 / VP9 configuration record fields are values of the parsed configuration")
     run.rule("R7", "hvcC profile/tier/level bytes are bit-for-bit the SPS bytes they summarise (all 256 values of the extracted expression)")
     hvcc_profile_bytes(prog, run, "R7")
+    run.rule("R9", "AV1 sequence-header parser == specification syntax (5.5.1-5.5.5): same bit widths in the same order and the same configuration values on every enumerated syntax path")
+    av1_reader_rule(prog, run, "R9")
     run.rule("R8", "table-driven configuration fields agree with their specification tables (AAC samplingFrequencyIndex; av1C flag bits per configuration field)")
     aac_frequency_index_rule(prog, run, "R8")
     av1c_flags_rule(prog, run, "R8")
@@ -583,3 +585,54 @@ def av1c_flags_rule(prog, run, rule):
                 run.check(not bad, rule, "av1C@1 seq_profile/seq_level_idx_0", "(profile << 5) | level for all 256 combinations", "av1C byte 1 for profile %s level %s is 0x%02x" % bad[0] if bad else "")
         except (ValueError, KeyError) as e:
             run.bad(rule, "av1C@%d evaluable" % off, "cannot evaluate the extracted expression: %s" % e)
+
+
+
+def av1_reader_rule(prog, run, rule):
+    """The parser's *read program* (syntax-directed transcription of parse_sequence_header and the parsers it hands the bit reader
+    to, from typed HIR) is compared with a transcription of the specification's syntax tables: for every enumerated combination of
+    the syntax elements that steer the syntax (flags, profile, counts, lengths), both programs must read the same sequence of bit
+    widths and produce the same configuration values.  Scenarios are enumerated per syntax section with the other sections at
+    two default settings."""
+    from .. import bitreader as BR
+    u = prog.lib
+    name = "codec::av1::parse_sequence_header"
+    if name not in u.hir:
+        run.bad(rule, "anchor AV1 sequence header parser", "parser not found")
+        return
+    try:
+        code = BR.Extractor(u).extract(name)
+    except (BR.Unsupported, KeyError, IndexError, TypeError) as e:
+        run.bad(rule, "AV1 parser extraction", "cannot transcribe the parser into a read program (%s: %s): fail closed" % (type(e).__name__, e))
+        return
+    nreads = sum(1 for _ in _walk_nodes(code) if _[0] == "rd")
+    run.floor(rule, nreads, 50, "bit reads in the extracted AV1 sequence-header program")
+    spec, cands = BR.av1_sequence_header_spec()
+    fields = ["seq_profile", "seq_level_idx", "seq_tier", "high_bitdepth", "twelve_bit", "monochrome", "chroma_subsampling_x", "chroma_subsampling_y", "chroma_sample_position"]
+
+    def mono(sc):
+        return sc.get("mono_chrome") == 1 and sc.get("seq_profile") != 1
+    total = 0
+    for label, keep in (("colour streams", lambda sc: not mono(sc)), ("monochrome streams", mono)):
+        try:
+            n, mm = BR.compare(code, spec, cands, fields, keep=keep)
+        except (BR.Unsupported, KeyError, TypeError) as e:
+            run.bad(rule, "AV1 parser evaluation (%s)" % label, "cannot evaluate the extracted read program: %s" % e)
+            continue
+        total += n
+        if mm is None:
+            run.ok(rule, "AV1 sequence header == spec syntax (%s)" % label, "%d syntax paths: same widths, same values" % n)
+        else:
+            run.bad(rule, "AV1 sequence header (%s): %s" % (label, mm["what"]), "on the syntax path %s the parser deviates from the specification: %s" % (
+                {k: v for k, v in mm["scenario"].items() if v}, mm["what"]), mir.loc_of(u.bodies[name]) if name in u.bodies else None)
+    run.extra["av1_syntax_paths_compared"] = total
+
+
+def _walk_nodes(nodes):
+    for n in nodes:
+        yield n
+        if n[0] == "if":
+            yield from _walk_nodes(n[2])
+            yield from _walk_nodes(n[3])
+        elif n[0] == "for":
+            yield from _walk_nodes(n[3])
